@@ -342,6 +342,13 @@ impl CommonArgs {
                 .build_global();
         }
 
+        #[cfg(wild_verif)]
+        simrt::event(
+            "pool_built",
+            self.available_threads.get() as u64,
+            tokens.len() as u64,
+            u64::from(self.num_threads.is_some()),
+        );
         Ok(ThreadPool {
             _jobserver_tokens: tokens,
         })
